@@ -68,7 +68,8 @@ func unmapActorProperties(mm map[string][]byte, a *Actor) error {
 			return err
 		}
 	}
-	if raw, ok := mm["endpoints"]; ok {
+	if raw, ok := mm["endpoints"]; ok && len(raw) > 0 {
+		a.Endpoints = new(Endpoints)
 		if err = a.Endpoints.GobDecode(raw); err != nil {
 			return err
 		}
